@@ -594,7 +594,49 @@ class _ILoc:
             rows = slice(f(rows.start), f(rows.stop), f(rows.step))
         names = [self.df.columns[c] for c in (cols if isinstance(cols, (list, tuple)) else range(*cols.indices(len(self.df.columns))))]
         idx = range(*rows.indices(len(self.df))) if isinstance(rows, slice) else [int(r_) for r_ in (rows.a.flat if isinstance(rows, Arr) else rows)]
-        return DataFrame({n: [self.df.data[n][i] for i in idx] for n in names})
+        idx = [i + len(self.df) if i < 0 else i for i in idx]
+        d = DataFrame({n: [self.df.data[n][i] for i in idx] for n in names})
+        d.index = [self.df.index[i] for i in idx]          # positional selection keeps the row labels
+        return d
+
+
+class _Loc:
+    """label-based row access: df.loc[label] is the row whose index label equals `label` (a list of its cells)"""
+
+    def __init__(self, df):
+        self.df = df
+
+    def __getitem__(self, key):
+        cols = None
+        if isinstance(key, tuple):
+            key, cols = key
+        if isinstance(key, (Sym,)):
+            key = int(key)
+        if isinstance(key, (list, Arr, slice)):
+            raise Inconclusive("DataFrame.loc with a list / mask / slice is not modelled")
+        hits = [i for i, lab in enumerate(self.df.index) if lab == key]
+        if not hits:
+            raise KeyError(key)
+        if len(hits) > 1:
+            raise Inconclusive("DataFrame.loc with a duplicated label is not modelled")
+        names = self.df.columns if cols is None else ([cols] if not isinstance(cols, list) else cols)
+        row = [self.df.data[n][hits[0]] for n in names]
+        return row[0] if (cols is not None and not isinstance(cols, list)) else _Row(row, list(names))
+
+
+class _Row(list):
+    def __init__(self, vals, names):
+        super().__init__(vals)
+        self.names = names
+
+    @property
+    def values(self):
+        return list(self)
+
+    def __getitem__(self, k):
+        if isinstance(k, str):
+            return list.__getitem__(self, self.names.index(k))
+        return list.__getitem__(self, k)
 
 
 class DataFrame:
@@ -608,6 +650,7 @@ class DataFrame:
             rows = [list(r) for r in (data or [])]
             self.columns = list(columns) if columns is not None else list(range(len(rows[0]) if rows else 0))
             self.data = {c: [r[i] for r in rows] for i, c in enumerate(self.columns)}
+        self.index = list(range(len(self)))           # row labels (default RangeIndex)
 
     def __len__(self):
         return len(self.data[self.columns[0]]) if self.columns else 0
@@ -616,15 +659,23 @@ class DataFrame:
     def iloc(self):
         return _ILoc(self)
 
+    @property
+    def loc(self):
+        return _Loc(self)
+
+    def _with_index(self, d, idx):
+        d.index = [self.index[i] for i in idx]
+        return d
+
     def copy(self):
-        return DataFrame({k: list(v) for k, v in self.data.items()})
+        return self._with_index(DataFrame({k: list(v) for k, v in self.data.items()}), range(len(self)))
 
     def __getitem__(self, k):
         if isinstance(k, list):          # column selection
-            return DataFrame({c: list(self.data[c]) for c in k})
+            return self._with_index(DataFrame({c: list(self.data[c]) for c in k}), range(len(self)))
         if isinstance(k, Arr):           # boolean row mask
             m = T.concretize_bool_array(k.a)
-            return DataFrame({c: [v for v, keep in zip(self.data[c], m) if keep] for c in self.columns})
+            return self._with_index(DataFrame({c: [v for v, keep in zip(self.data[c], m) if keep] for c in self.columns}), [i for i, keep in enumerate(m) if keep])
         return NDArray(np.array(self.data[k], dtype=object)) if self.data[k] else NDArray(np.empty((0,), dtype=object))
 
     def __setitem__(self, k, v):
@@ -681,7 +732,7 @@ class DataFrame:
                 else:
                     break
             order.insert(pos, i)
-        return DataFrame({c: [self.data[c][i] for i in order] for c in self.columns})
+        return self._with_index(DataFrame({c: [self.data[c][i] for i in order] for c in self.columns}), order)
 
 
 class Series(DataFrame):
